@@ -96,6 +96,12 @@ def simple_violating_values(st):
                 out.append((str(f.min_exclusive), (owner, "minExclusive")))
             if f.max_exclusive is not None and f.max_exclusive - 1 == hi:
                 out.append((str(f.max_exclusive), (owner, "maxExclusive")))
+            if f.enumeration is not None:
+                members = [int(e) for e in f.enumeration]
+                if min(members) == lo and lo - 1 >= XSD_INT_RANGE[ub][0]:
+                    out.append((str(lo - 1), (owner, "enumeration")))
+                if max(members) == hi and hi + 1 <= XSD_INT_RANGE[ub][1]:
+                    out.append((str(hi + 1), (owner, "enumeration")))
         elif ub in ("string", "normalizedString"):
             if f.enumeration is not None:
                 out.append(("zz-not-a-member", (owner, "enumeration")))
